@@ -218,6 +218,30 @@ def registry():
         reg('fit:num_classes:' + kind,
             (lambda kind: lambda r: [v for v in ml.make_data(r, kind, [3], K, D, T).values()])(kind),
             (lambda kind: lambda *a: getattr(ml.trainer_for(kind), 'fit')(*a, num_classes=2, iterations=2))(kind), seeded=True)
+    # distribution objects evaluated repeatedly (tied / ascending / descending parameters): evaluation never changes the object
+    from pb_bss.distribution.complex_bingham import ComplexBingham
+    from pb_bss.distribution.gaussian import Gaussian, DiagonalGaussian, SphericalGaussian
+    from pb_bss.distribution.complex_watson import ComplexWatson
+    from pb_bss.distribution.von_mises_fisher import VonMisesFisher
+    def _uz(r, *s_):
+        z = _c(r, *s_)
+        return z / np.linalg.norm(z, axis=-1, keepdims=True)
+    for nm, lam in (('tied_asc', [-7.0, -7.0, -2.0, 0.0]), ('asc', [-9.0, -4.0, -1.0, 0.0]), ('desc', [0.0, -1.0, -4.0, -9.0]), ('tied_top', [-5.0, 0.0, 0.0])):
+        reg('eval2:bingham:' + nm, (lambda lam: lambda r: [np.linalg.qr(_c(r, len(lam), len(lam)))[0], np.array(lam), _uz(r, 6, len(lam))])(lam),
+            _eval_twice(lambda U, l, y: (ComplexBingham(covariance_eigenvectors=U, covariance_eigenvalues=l), y)))
+    reg('eval2:gauss_spherical', lambda r: [r.normal(size=(3, 2)), r.uniform(0.5, 2, size=3), r.normal(size=(3, 5, 2))],
+        _eval_twice(lambda m, c, y: (SphericalGaussian(mean=m, covariance=c), y)))
+    reg('eval2:gauss_diagonal', lambda r: [r.normal(size=(3, 2)), r.uniform(0.5, 2, size=(3, 2)), r.normal(size=(3, 5, 2))],
+        _eval_twice(lambda m, c, y: (DiagonalGaussian(mean=m, covariance=c), y)))
+    reg('eval2:gauss_full', lambda r: [r.normal(size=(3, 2)), _pd(r, 3, 2).real, r.normal(size=(3, 5, 2))],
+        _eval_twice(lambda m, c, y: (Gaussian(mean=m, covariance=c), y)))
+    reg('eval2:watson', lambda r: [_uz(r, 3, 4), r.uniform(1, 50, size=3), _uz(r, 3, 5, 4)],
+        _eval_twice(lambda m, c, y: (ComplexWatson(mode=m, concentration=c), y)))
+    reg('eval2:vmf', lambda r: [(lambda v: v / np.linalg.norm(v, axis=-1, keepdims=True))(r.normal(size=(3, 4))), r.uniform(1, 50, size=3), r.normal(size=(3, 5, 4))],
+        _eval_twice(lambda m, c, y: (VonMisesFisher(mean=m, concentration=c), y)))
+    # helpers that return arrays built from scalars only
+    reg('mask:voiced_unvoiced', lambda r: [], lambda: mm_.voiced_unvoiced_split_characteristic(65))
+    reg('mask:biased_binary', lambda r: [np.abs(_c(r, 2, 4, 65)) * 3], lambda s: mm_.biased_binary_mask(s, low_cut=2, high_cut=60))
     for nm in ('uniform_normalized', 'dirichlet', 'one_hot'):
         reg('init:' + nm, lambda r: [np.zeros((2, 6, 3))], (lambda nm: lambda y: getattr(pinit.iid, nm)(y, 3))(nm), seeded=True)
     reg('init:flag', lambda r: [np.zeros((2, 6, 3))], lambda y: pinit.deterministic.flag(y, 3, permutation_free=True, minimum=0.1))
@@ -225,6 +249,48 @@ def registry():
 
 
 REG = None
+
+
+class ModelMutated(Exception):
+    pass
+
+
+def _scribble(o, depth=0):
+    """overwrite every writeable ndarray reachable from a result object (tuples, lists, dicts, dataclasses)"""
+    import dataclasses
+    if depth > 3:
+        return
+    if isinstance(o, np.ndarray):
+        if o.flags.writeable and o.size:
+            try:
+                o[...] = o * 0.25 + 1 if o.dtype.kind in 'fc' else o
+            except Exception:
+                pass
+    elif isinstance(o, (tuple, list)):
+        for x in o:
+            _scribble(x, depth + 1)
+    elif isinstance(o, dict):
+        for x in o.values():
+            _scribble(x, depth + 1)
+    elif dataclasses.is_dataclass(o):
+        for f in dataclasses.fields(o):
+            _scribble(getattr(o, f.name, None), depth + 1)
+
+
+def _eval_twice(build):
+    """build a distribution object from read-only parameters, evaluate it twice: the object must stay as it was"""
+    import copy
+    def fn(*a):
+        obj, y = build(*a)
+        snap = _digest_obj(copy.deepcopy(obj))
+        l1 = obj.log_pdf(y)
+        if _digest_obj(obj) != snap:
+            raise ModelMutated()
+        l2 = obj.log_pdf(y)
+        if _digest_obj(obj) != snap or _digest_obj(l1) != _digest_obj(l2):
+            raise ModelMutated()
+        return l1
+    return fn
 
 
 def _call_case(case):
@@ -248,7 +314,10 @@ def _call_case(case):
         np.random.seed(case['seed'] % (1 << 31))
         try:
             with np.errstate(all='ignore'):
-                outs.append(_digest_obj(fn(*args)))
+                res = fn(*args)
+                outs.append(_digest_obj(res))
+                # the result belongs to the caller: scribbling over it must not influence the next call
+                _scribble(res)
         except ValueError as e:
             exc = 'ReadOnlyValueError' if 'read-only' in str(e) or 'readonly' in str(e) else 'ValueError'
             break
